@@ -70,7 +70,8 @@ Verifies(k, a) ==
   { VerifyOp(TokWith(a, sg, "none", r)) : sg \in SigClasses(k, a), r \in 1..Reps }
   \cup { VerifyOp(TokWith(a, S("valid", a, k), alt, r)) : alt \in Alters, r \in 1..Reps }
   \* the genuine signature moved behind extra segments (it is the LAST segment, not the third)
-  \cup { VerifyOp([TokWith(a, S("valid", a, k), "none", 1) EXCEPT !.shape = sh]) : sh \in {"4seg", "4segempty", "4segmid", "4segmidempty", "5segmid", "dupsig"} }
+  \cup { VerifyOp([TokWith(a, S("valid", a, k), "none", 1) EXCEPT !.shape = sh]) : sh \in {"4seg", "4segempty", "4segmid", "4segmidempty", "5segmid", "dupsig",
+                                                                                                   "tailnl", "tailcrlf", "tailcr", "tailnlx", "tailsp", "tailtab", "leadnl", "leadsp"} }
   \* re-targeted to "no algorithm": header alg none with an empty third segment, and with the genuine signature kept
   \cup { VerifyOp(TokWith("none", sg, "none", 1)) : sg \in {EmptySig, S("valid", a, k)} }
 
